@@ -15,6 +15,7 @@ import (
 	"os/exec"
 	"path/filepath"
 	"sort"
+	"strings"
 	"sync"
 	"syscall"
 	"time"
@@ -314,6 +315,27 @@ func supervise(scs []Scenario) {
 		}(k, lo, hi)
 	}
 	wg.Wait()
+	// data-race reports of a -race build end up in the children's logs: collect them next to the trace file
+	var races []byte
+	for k := 0; k < n; k++ {
+		if b, e := ioutil.ReadFile(filepath.Join(base, fmt.Sprintf("child%d.log", k))); e == nil {
+			for _, blk := range strings.Split(string(b), "==================") {
+				if strings.Contains(blk, "WARNING: DATA RACE") {
+					races = append(races, []byte(blk+"\n==================\n")...)
+				}
+			}
+			if i := strings.Index(string(b), "fatal error:"); i >= 0 {
+				end := i + 3000
+				if end > len(b) {
+					end = len(b)
+				}
+				races = append(races, []byte("FATAL: "+string(b[i:end])+"\n==================\n")...)
+			}
+		}
+	}
+	if len(races) > 0 {
+		ioutil.WriteFile(*OutFile+".races", races, 0o644)
+	}
 	f, err := os.Create(*OutFile)
 	if err != nil {
 		Fatal("create out: %v", err)
